@@ -145,7 +145,7 @@ def pickle_classes():
 
 def shape_cases():
   out = []
-  for shape in list(shapes()) + ['pickle_init', 'pickle_new', 'pickle_nt', 'with_method', 'borrowed_method', 'equal_objects']:
+  for shape in list(shapes()) + ['pickle_init', 'pickle_new', 'pickle_nt', 'with_method', 'borrowed_method', 'equal_objects', 'rejected_class']:
     for api in ('configurable', 'register', 'external'):
       for scoped in (False, True):
         out.append({'dom': 'gin', 'kind': 'shape', 'shape': shape, 'api': api, 'scoped': scoped, 'ops': []})
@@ -221,6 +221,8 @@ def run_shape(case):
   facts = {}
   if shape == 'equal_objects':
     return equal_objects(gin, api)
+  if shape == 'rejected_class':
+    return rejected_class(gin, api)
   if shape.startswith('pickle'):
     mod = pickle_classes()
     orig = {'pickle_init': mod.PInit, 'pickle_new': mod.PNew, 'pickle_nt': mod.PNT}[shape]
@@ -355,6 +357,40 @@ def equal_objects(gin, api):
   return facts
 
 
+def rejected_class(gin, api):
+  """A class offered under a full name a different object holds: rejected, and the class is exactly what it was (its
+  constructor not replaced, its registered method still registered as before)."""
+  g = {'gin': gin, '__name__': 'rc'}
+  exec('def holder(size=1):\n  return size\n'  # pylint: disable=exec-used
+       'class Box:\n  """doc box"""\n  def __init__(self, size=1):\n    self.size = size\n'
+       '  @gin.register\n  def sharpen(self, k=1):\n    return k\n', g)
+  gin.external_configurable(g['holder'], name='holder', module='m')
+  gin.bind_parameter('m.holder.size', 99)
+  Box = g['Box']
+  before = dict(vars(Box))
+  names_before = sorted(k for k, _ in gin.config._REGISTRY.items())  # pylint: disable=protected-access
+  facts = {}
+  try:
+    if api == 'configurable':
+      gin.configurable('holder', module='m')(Box)
+    elif api == 'register':
+      gin.register('holder', module='m')(Box)
+    else:
+      gin.external_configurable(Box, name='holder', module='m')
+    facts['duplicate_rejected'] = 'accepted'
+  except ValueError:
+    facts['duplicate_rejected'] = True
+  except Exception as e:  # pylint: disable=broad-except
+    facts['duplicate_rejected'] = f'raised {type(e).__name__}'
+  after = dict(vars(Box))
+  facts['class_dict_unchanged'] = set(before) == set(after) and all(before[k] is after[k] for k in before)
+  facts['direct_untouched'] = Box().size == 1
+  names_after = sorted(k for k, _ in gin.config._REGISTRY.items())  # pylint: disable=protected-access
+  facts['registry_unchanged'] = names_after == names_before or f'{names_before} -> {names_after}'
+  facts['first_still_registered'] = gin.config._REGISTRY['m.holder'].wrapped is g['holder']  # pylint: disable=protected-access
+  return facts
+
+
 def run_impl(case):
   if case['kind'] == 'shape':
     return {'out': [], 'facts': run_shape(case)}
@@ -394,7 +430,7 @@ def oracle(case, impl):
     return f'{tag}: {f["error"]}'
   for k in ('register_returns_original', 'direct_untouched', 'injected', 'isinstance', 'issubclass', 'name_doc_module',
             'class_dict_unchanged', 'pickles', 'meta_ran', 'name_doc_sig', 'equal_but_distinct_rejected',
-            'method_via_function_object',
+            'method_via_function_object', 'duplicate_rejected', 'registry_unchanged',
             'first_still_registered'):
     if k in f and f[k] is not True and f[k] is not None:
       return f'{tag}: {k} = {f[k]}'
